@@ -255,12 +255,16 @@ func (l *listener) doExtract(kw Keyword, fnName string, list parser.IExpressionL
 	}
 	if i := kw.MsgID; i > 0 {
 		param := list.Expression(i - 1)
-		if s, ok := isStringLiteral(param); ok {
-			at := param.GetStart()
-			entry.MsgID = s
-			entry.MsgCmts = append(entry.MsgCmts, fmt.Sprintf("#: %s:%s",
-				l.file, l.pos.Add(at.GetLine(), at.GetColumn())))
+		s, ok := isStringLiteral(param)
+		if !ok || s == "" {
+			// msgid 不是字符串字面量(或为空串): 没有可抽取的文本,
+			// 也不能生成 msgid "" 的条目去覆盖 POT 头部
+			return
 		}
+		at := param.GetStart()
+		entry.MsgID = s
+		entry.MsgCmts = append(entry.MsgCmts, fmt.Sprintf("#: %s:%s",
+			l.file, l.pos.Add(at.GetLine(), at.GetColumn())))
 	}
 	if i := kw.MsgID2; i > 0 {
 		param := list.Expression(i - 1)
